@@ -6,6 +6,8 @@ Reads
       must agree), `req.limit.unwrap_or(1).clamp(lo, hi)` of compaction_cut_points_v1, `limit: Some(N)` of the three
       planners (status / schedule / spawn_job), `max_new_checkpoints.unwrap_or(1).clamp(lo, hi)` of schedule and
       spawn_job (must agree), MAX_TAIL_EVENTS of find_inflight_compaction_job_id_best_effort_v1
+      that compaction_auto_schedule_spawn_job_v1 adopts `spawned.planned` after the spawn and compaction_auto_schedule_v1
+      runs the job on `response.planned` (the S20 fix: the model's `astep` is the fixed scheduler)
   crates/ripd/src/continuity_stream_cache.rs : MAX_BACKSCAN_EVENTS of latest_compaction_checkpoint_before_or_at_seq_v1
       and that the function returns Err when the bounded scan is not `complete` (the S19 fix)
 Emits coq/Gen/CompactionConsts.v: gen_consts : consts, gen_ok_compaction_consts : bool and the obligations
@@ -136,6 +138,18 @@ def main():
             ok = False
             notes.append("checkpoint look-up: `if !parsed.complete { return Err(..) }` before the selection not found")
 
+    # S20 fix: after a successful spawn the scheduler adopts the spawned job's plan (decision frame, response, job)
+    sj = fns["compaction_auto_schedule_spawn_job_v1"]
+    i_spawn = sj.find("self.compaction_auto_spawn_job_v1(")
+    m_adopt = re.search(r"let\s+planned\s*=\s*spawned\.planned\.clone\(\)\s*;", sj)
+    i_dec = sj.rfind('decision: "scheduled".to_string()')
+    adopts = bool(m_adopt and i_spawn >= 0 and i_spawn < m_adopt.start() < i_dec)
+    sv = fn_body(co, "compaction_auto_schedule_v1") or ""
+    runs_resp = bool(re.search(r"compaction_auto_run_spawned_job_v1\(\s*thread_id\s*,\s*&job_id\s*,\s*response\.stride_messages\s*,\s*&response\.cut_rule_id\s*,\s*&response\.planned", sv))
+    if not (adopts and runs_resp):
+        ok = False
+        notes.append("schedule: `let planned = spawned.planned.clone();` between spawn_job and the scheduled decision (adopts=%s), job run on &response.planned (%s) not found" % (adopts, runs_resp))
+
     os.makedirs(a.out, exist_ok=True)
     with open(os.path.join(a.out, "CompactionConsts.v"), "w") as f:
         f.write("(* GENERATED by tools/gen/compaction_consts.py from crates/ripd/src/{continuities,continuity_stream_cache}.rs — do not edit *)\n")
@@ -144,6 +158,7 @@ def main():
             f.write("(* note: %s *)\n" % n.replace("*)", "* )"))
         f.write("Definition gen_ok_compaction_consts : bool := %s.\n" % ("true" if ok else "false"))
         f.write("Definition gen_ck_scan_guarded : bool := %s.\n" % ("true" if guarded else "false"))
+        f.write("Definition gen_sched_adopts_spawned_plan : bool := %s.\n" % ("true" if (adopts and runs_resp) else "false"))
         f.write("Definition gen_consts : consts :=\n  {| k_default_stride := %d; k_limit_lo := %d; k_limit_hi := %d; k_plan_limit := %d;\n"
                 "     k_maxnew_lo := %d; k_maxnew_hi := %d; k_ck_window := %d; k_inflight_window := %d |}.\n\n"
                 % (vals["stride"], vals["lim_lo"], vals["lim_hi"], vals["plan"], vals["mx_lo"], vals["mx_hi"], vals["ckw"], vals["infl"]))
@@ -153,7 +168,7 @@ def main():
                 "Definition consts_wf (k : consts) : bool :=\n"
                 "  (k_limit_lo k <=? k_limit_hi k) && (k_maxnew_lo k <=? k_maxnew_hi k) && (1 <=? k_limit_lo k) && (1 <=? k_maxnew_lo k)\n"
                 "  && negb (k_default_stride k =? 0) && (k_plan_limit k <=? k_limit_hi k) && (k_limit_lo k <=? k_plan_limit k).\n\n")
-        f.write("Lemma gen_compaction_consts_ok : (gen_ok_compaction_consts && gen_ck_scan_guarded && consts_wf gen_consts) = true.\n"
+        f.write("Lemma gen_compaction_consts_ok : (gen_ok_compaction_consts && gen_ck_scan_guarded && gen_sched_adopts_spawned_plan && consts_wf gen_consts) = true.\n"
                 "Proof. vm_compute. reflexivity. Qed.\n")
         f.write("Lemma gen_consts_are_real : consts_eqb gen_consts real_consts = true.\nProof. vm_compute. reflexivity. Qed.\n")
     print("compaction_consts: ok=%s %s %s" % (ok, vals, "; ".join(notes)))
